@@ -319,7 +319,7 @@ def build_epub(sc, opf="OEBPS/content.opf"):
             if a.kind == "external":
                 continue
             k += 1
-            ext = a.media.rsplit(".", 1)[-1]
+            ext = a.media.rsplit(".", 1)[-1].lower()
             items.append(f'<item id="img{k}" href="{iri(ref(a.style, opf_dir, a.media))}" media-type="{CT.get(ext, "image/" + ext)}"/>')
     files[opf] = (f'<?xml version="1.0"?><package xmlns="http://www.idpf.org/2007/opf" version="3.0"><metadata xmlns:dc="http://purl.org/dc/elements/1.1/">'
                   f'<dc:title>t</dc:title></metadata><manifest>{"".join(items)}</manifest><spine>{"".join(spine)}</spine></package>')
@@ -456,7 +456,9 @@ def check(sc, aspects=ASPECTS, dedup=False):
 
 # ------------------------------------------------------------------- scenario generators --
 def gen_scenarios(fmt, seed=0, count=40, styles=("relative", "parent", "absolute", "dot"), kinds=("embedded", "missing", "external"),
-                  share=True, max_units=3, max_per_unit=3):
+                  share=True, max_units=3, max_per_unit=3, ext_case=False):
+    """ext_case: the extension of every media part name is written lower / UPPER / Capitalised in turn (cameras and scanners write
+    IMG_0002.JPG); the random stream is the same as without it."""
     rnd = random.Random(seed * 7919 + hash(fmt) % 1000 if False else seed * 7919 + sum(map(ord, fmt)))
     md = MEDIA_DIR[fmt]
     single = fmt in ("docx", "odt")
@@ -473,7 +475,8 @@ def gen_scenarios(fmt, seed=0, count=40, styles=("relative", "parent", "absolute
                 else:
                     k += 1
                     ext = rnd.choice(["png", "jpg", "jpeg", "gif", "bmp"])
-                    part = f"{md}/image{k}.{ext}"
+                    ext_w = (ext, ext.upper(), ext.capitalize())[k % 3] if ext_case else ext
+                    part = f"{md}/image{k}.{ext_w}"
                     if kind == "embedded":
                         media[part] = make_image(rnd, ext, k)
                 anchors.append(Anchor(part, style, kind))
@@ -1133,21 +1136,25 @@ def search(ob, wit=None):
         return witness("order", fmt)
     if "/bytes#" in ob or "/content-type#" in ob or "/unit#" in ob:
         asp = {"bytes": ("resolution", "bytes", "no-foreign"), "content-type": ("content-type",), "unit": ("unit",)}[ob.split("/")[-1].split("#")[0]]
-        return sweep(fmt, asp)
+        r = sweep(fmt, asp)
+        if r is None and "content-type" in asp:
+            # part names whose extension is not all lower case (IMG_0002.JPG): the content type is that of the lower-cased extension
+            r = sweep(fmt, asp, seeds=(0,), count=15, ext_case=True)
+        return r
     if "data_types.py" in ob:
         cls = ob.split("::")[1].split(".")[0] if "::" in ob else None
         return check_views(cls if cls and cls.endswith("Content") else None)
     return None
 
 
-def sweep(fmt, aspects, seeds=(0, 1), count=25, max_units=3, kinds=("embedded", "missing", "external")):
+def sweep(fmt, aspects, seeds=(0, 1), count=25, max_units=3, kinds=("embedded", "missing", "external"), ext_case=False):
     if fmt is None:
         return None
     if fmt == "pdf":
         return first_failure([pdf_scenario([[(30, 20), (10, 11)]]), pdf_scenario([[(5, 6)]])], aspects)
     styles = ("relative",) if fmt in ("odt", "odp", "ods", "odg") else ("relative", "parent", "absolute", "dot")
     for seed in seeds:
-        r = first_failure(gen_scenarios(fmt, seed, count, styles=styles, max_units=max_units, kinds=kinds), aspects, dedup=fmt in ("odt", "odg"))
+        r = first_failure(gen_scenarios(fmt, seed, count, styles=styles, max_units=max_units, kinds=kinds, ext_case=ext_case), aspects, dedup=fmt in ("odt", "odg"))
         if r:
             return r
     return None
